@@ -28,6 +28,12 @@ func init() {
 					items = append(items, Item{ID: "text:" + p.Name, Run: func(c *Ctx) { c18text(c, p) }})
 					items = append(items, Item{ID: "text-at-max:" + p.Name, Run: func(c *Ctx) { c18textAtMax(c, p) }})
 				case "WriteBasicTypeList", "WriteStringList", "WriteFixedStringList", "WriteObjectList":
+					if p.Family == "WriteObjectList" {
+						for _, nb := range [][2]int{{1, 0}, {3, 1}, {3, 2}} {
+							nb := nb
+							items = append(items, Item{ID: fmt.Sprintf("objrefuse:%s/n=%d/bad=%d", p.Name, nb[0], nb[1]), Run: func(c *Ctx) { c18objRefuse(c, p, nb[0], nb[1]) }})
+						}
+					}
 					// element types do not matter for the count: one element type per family
 					if p.Family == "WriteBasicTypeList" && p.TArgs[1] != "uint16" {
 						continue
@@ -289,6 +295,7 @@ func (c *Ctx) buildWriterShared(p primInst, n int) *primHarness {
 		}
 	case "WriteObjectList":
 		v := e.freshVar("obj", 16)
+		s.pc = append(s.pc, Not(Eq(v, C(16, 0xFFFF)))) // (the value at which the test element refuses to encode)
 		id := s.newObj(&Obj{Kind: kCell, Val: &StructV{F: []Value{v}}})
 		o := &Obj{Kind: kElems}
 		for i := 0; i < n; i++ {
@@ -431,4 +438,54 @@ func c18msgList(c *Ctx, mod, tn string, fi int) {
 					step("op", "newmsg", "msg", "m", "module", mod, "type", tn, "value", mv), step("op", "encode", "msg", "m", "buf", "b")}, Judge: Judge{Kind: "err_nil", Step: 2}}}
 		})
 	}
+}
+
+
+// c18objRefuse: an element of an object list whose own Encode returns an error (in the messages: an element with
+// an over-long list or text one level down) must make the list writer return an error - a swallowed element error
+// is a truncated element followed by the rest, which decodes as something else.
+func c18objRefuse(c *Ctx, p primInst, n, bad int) {
+	e := c.e()
+	s := c.w.newState()
+	bufID := s.newObj(&Obj{Kind: kBuffer, B: EmptyBytes(), R: CI(0)})
+	o := &Obj{Kind: kElems}
+	var vs []*Term
+	for i := 0; i < n; i++ {
+		v := e.freshVar("obj", 16)
+		if i == bad {
+			s.pc = append(s.pc, Eq(v, C(16, 0xFFFF)))
+		} else {
+			s.pc = append(s.pc, Not(Eq(v, C(16, 0xFFFF))))
+		}
+		vs = append(vs, v)
+		o.E = append(o.E, &Ptr{Obj: s.newObj(&Obj{Kind: kCell, Val: &StructV{F: []Value{v}}})})
+	}
+	args := []Value{&Ptr{Obj: bufID}, &SliceV{Obj: s.newObj(o), Off: CI(0), Len: CI(int64(n)), Cap: CI(int64(n))}}
+	steps := func(val func(*Term) uint64) []map[string]any {
+		l := []any{}
+		for _, v := range vs {
+			l = append(l, map[string]any{"V": fmt.Sprint(val(v))})
+		}
+		return []map[string]any{step("op", "newbuf", "buf", "b", "hex", ""), step("op", "prim", "fn", p.Name, "args", []any{map[string]any{"buf": "b"}, l})}
+	}
+	if p.Fn.Signature.Params().Len() != len(args) {
+		panic(bindErr("signature of " + p.Name))
+	}
+	e.pushCall(s, p.Fn, args, nil)
+	for _, fs := range e.Run(s) {
+		if c.PathProblem(fs, p.Name, func(val func(*Term) uint64, msg string) *Violation {
+			return &Violation{Obligation: "no-panic", Detail: p.Name + " panics: " + msg, Replay: &ReplayReq{Steps: steps(val), Judge: Judge{Kind: "panic"}}}
+		}) {
+			continue
+		}
+		if isNilErr(fs.ret) {
+			c.Prove(fs, "element-error-is-returned", False, func(val func(*Term) uint64) *Violation {
+				return &Violation{Detail: fmt.Sprintf("%s returns nil although element %d of %d refused to encode", p.Name, bad, n), Replay: &ReplayReq{Steps: steps(val), Judge: Judge{Kind: "err_nil", Step: 1}}}
+			})
+			continue
+		}
+		c.res.Obl++
+		c.res.Dis++
+	}
+	c.Witness(s, "refusing element", func(val func(*Term) uint64) any { return map[string]any{"fn": p.Name, "n": n, "refusing_element": bad} })
 }
